@@ -64,7 +64,7 @@ Definition same_table (tol : Q) (a b : pd) : bool :=
   forallb (fun kv => qclose tol (snd kv) (get0 (fst kv) b)) a && forallb (fun kv => qclose tol (snd kv) (get0 (fst kv) a)) b.
 
 (* ---- information quantities of a joint table ----------------------------------------------------------- *)
-Definition pd_dist15 (t : pd) : dist := mkDist (Expl (keys t)) t true Linear None.
+Definition pd_dist15 (t : pd) : dist := mkDist (Expl (keys t)) t false Linear None.   (* dense: no trimming of tiny probabilities *)
 Definition lin_of (t : pd) (tm : option (list hterm)) : option rdata :=
   match tm with Some l => Some (RLin (hdata (pd_dist15 t) (hmerge l))) | None => None end.
 Definition ent_data (t : pd) (n : nat) (X C : list nat) := lin_of t (cond_H n X C).
